@@ -160,7 +160,7 @@ pub fn c10(ctx: &mut Ctx) -> Search {
     let costs: Vec<(u64, usize)> = if t {
         vec![(1, 8192), (2, 8192), (3, 8192), (3, 16384), (4, 65536), (3, 9000), (5, 8192 + 1023), (3, 9 * 1024), (3, 10 * 1024 + 5), (3, 11 * 1024), (4, 13 * 1024)]
     } else {
-        vec![(1, 8192), (3, 8192), (3, 9000), (3, 9 * 1024), (3, 10 * 1024 + 5), (3, 11 * 1024)]
+        vec![(1, 8192), (3, 8192), (3, 9000), (3, 9 * 1024), (3, 10 * 1024 + 5), (3, 11 * 1024), (1, 1000 * 1024), (3, 1500 * 1024)]
     };
     for pw in &pws {
         for &(ops, mem) in &costs {
